@@ -327,12 +327,14 @@ theorem validRune_inRune {c : Int} (hv : validRune c = true) : inRune c := by
 /-! ## Two events `String()` and `Matches` cannot tell apart, for an arbitrary `unicode` oracle -/
 
 /-- The legacy byte carries the key's own character as text, the kitty report carries no text; the
-    key is unmodified; no lower-case rune has the key's character as its upper case (else rule 6 of
-    `Matches` — "Shift + lower-case binding matches the upper-case text" — fires for the legacy event
-    only).  Go's tables violate the last clause e.g. for 'ß': `IsLower('ß')` and `ToUpper('ß') = 'ß'`. -/
+    key is unmodified; no lower-case rune *with an upper case of its own* has the key's character as that
+    upper case (else rule 6 of `Matches` — "Shift + lower-case binding matches the upper-case text" — fires
+    for the legacy event only).  Since the repair of F209 rule 6 does not fire for a rune that is its own
+    upper case ('ß': `IsLower('ß')` and `ToUpper('ß') = 'ß'`), so such keys meet the clause; Go's tables
+    violate it only for the 27 title-case letters ᾈ … ῼ, which are what Shift + ᾀ … produces, not keys. -/
 def OwnCharText (u : Uni) (k1 k2 : Key) : Prop :=
   k1.mods = 0 ∧ k1.text = [k1.keycode] ∧ k2.text = [] ∧ validRune k1.keycode = true ∧ k1.keycode ≠ 0xFFFD ∧
-  ∀ r, u.isLower r = true → u.toUpper r ≠ k1.keycode
+  ∀ r, u.isLower r = true → u.toUpper r ≠ r → u.toUpper r ≠ k1.keycode
 
 theorem sameForMatching_sound_uni (u : Uni) (k1 k2 : Key)
     (hk : k1.keycode = k2.keycode) (hs : k1.shifted = k2.shifted) (hb : k1.base = k2.base)
@@ -359,18 +361,18 @@ theorem sameForMatching_sound_uni (u : Uni) (k1 k2 : Key)
       · simp at h; exact absurd h hfffd
     have g : ∀ key, ([] : Str) ≠ strOfRune key := by
       intro key; unfold strOfRune; split <;> simp
-    have f6 : ∀ key, u.isLower key = true → ([k1.keycode] : Str) ≠ strOfRune (u.toUpper key) := by
-      intro key hl h
-      exact hup key hl (f2 _ h).symm
+    have f6 : ∀ key, u.isLower key = true → u.toUpper key ≠ key → ([k1.keycode] : Str) ≠ strOfRune (u.toUpper key) := by
+      intro key hl hne h
+      exact hup key hl hne (f2 _ h).symm
     constructor
-    · rintro (h | ⟨h, hM⟩ | h | h | h | ⟨_, hl, h, _⟩)
+    · rintro (h | ⟨h, hM⟩ | h | h | h | ⟨_, hl, hne, h, _⟩)
       · exact Or.inl h
       · exact Or.inl ⟨f2 _ h, hM⟩
       · exact Or.inr (Or.inr (Or.inl h))
       · exact Or.inr (Or.inr (Or.inr (Or.inl h)))
       · exact Or.inr (Or.inr (Or.inr (Or.inr (Or.inl h))))
-      · exact absurd h (f6 _ hl)
-    · rintro (h | ⟨h, _⟩ | h | h | h | ⟨_, _, h, _⟩)
+      · exact absurd h (f6 _ hl hne)
+    · rintro (h | ⟨h, _⟩ | h | h | h | ⟨_, _, _, h, _⟩)
       · exact Or.inl h
       · exact absurd h (g _)
       · exact Or.inr (Or.inr (Or.inl h))
@@ -389,7 +391,7 @@ theorem sameForMatching_is_instance (k1 k2 : Key) (h : sameForMatching k1 k2 = t
   rcases ht with ht | ⟨⟨⟨⟨⟨hm0, ht1⟩, ht2⟩, hv⟩, hfffd⟩, hup⟩
   · exact Or.inl ht
   · refine Or.inr ⟨hm0, ht1, ht2, hv, by simpa using hfffd, ?_⟩
-    intro r hl
+    intro r hl _
     simp only [asciiUni, decide_eq_true_eq] at hl
     simp only [asciiUni, hl, and_self, if_true]
     omega
